@@ -52,6 +52,14 @@ def gen_cases(tier, seed):
             dim = 2 + (i % 2)
             cm = W.gen_copula_model_spec(rng, dim=dim)
             cases.append({"model": cm, "grid": G.gen_grid_spec(rng, ctor, dim), "refine": int(rng.integers(0, (2 if not thorough else 4) + 1))})
+    # credit grids whose thresholds sit exactly on the left truncation / on -h (refused, or returned well-formed)
+    for i in range(4 if not thorough else 24):
+        dim = 1 + (i % 3)
+        m = W.gen_copula_model_spec(rng, dim=dim) if dim > 1 else W.gen_model_spec(rng, str(rng.choice(["HEM", "CGMY", "VG", "MERTON"])))
+        g = G.gen_grid_spec(rng, "credit" if i % 2 else ("credit_asym" if dim > 1 else "credit"), dim)
+        g["a_frac"] = [float(rng.choice([0.0, 1.0])) if (k == i % dim or rng.random() < 0.3) else W.r6(rng.uniform(0.05, 0.95)) for k in range(dim)]
+        g["boundary_threshold"] = True
+        cases.append({"model": m, "grid": g, "refine": int(rng.integers(0, 3))})
     # time grids
     for i in range(6 if not thorough else 40):
         cases.append({"time": {"start": W.r6(rng.choice([0.0, rng.uniform(0, 2)])), "len": W.r6(W._logu(rng, 0.01, 30)),
